@@ -24,7 +24,10 @@ def run(m):
             return dict(id=m['id'], prop=m['prop'], result='does-not-apply')
         open(p, 'w').write(s.replace(m['old'], m['new'], 1))
         env = dict(os.environ, PARSO_REPO=d, PV_SKIP_BOUNDED='1', PV_OUT_DIR=os.path.join(d, 'out'), PV_CVC5_TIMEOUT_S='3')
-        r = subprocess.run([os.path.join(HERE, 'check'), m['prop'], '--tier', 'quick'], env=env, capture_output=True, text=True, timeout=900)
+        try:
+            r = subprocess.run([os.path.join(HERE, 'check'), m['prop'], '--tier', 'quick'], env=env, capture_output=True, text=True, timeout=1500)
+        except subprocess.TimeoutExpired:
+            return dict(id=m['id'], prop=m['prop'], expect=m['expect'], result='timeout')
         lines = [l for l in r.stdout.splitlines() if l.startswith(('VIOLATION', 'UNDECIDED'))]
         hit = [l for l in lines if l.startswith('VIOLATION') and m['expect'] in l]
         return dict(id=m['id'], prop=m['prop'], expect=m['expect'], result='killed' if hit else ('other-violation' if any(l.startswith('VIOLATION') for l in lines) else 'survived'),
